@@ -194,6 +194,16 @@ func locksetObligations(w *World, pkg string, run *checkRun) []*Obligation {
 				if visit != nil {
 					visit(ins, s)
 				}
+				if d, ok := ins.(*ssa.Defer); ok {
+					// a deferred Unlock: the mutex is released at every return reached from here
+					dc := d.Common()
+					if fn, ok := dc.Value.(*ssa.Function); ok && fn.Signature.Recv() != nil && len(dc.Args) > 0 && (fn.Name() == "Unlock" || fn.Name() == "RUnlock") {
+						if b0, mu, ok := mutexOf(dc.Args[0]); ok {
+							s["defer:"+lockKey(baseRoot(b0), mu)] = 'W'
+						}
+					}
+					continue
+				}
 				call, ok := ins.(*ssa.Call)
 				if !ok {
 					continue
@@ -220,6 +230,9 @@ func locksetObligations(w *World, pkg string, run *checkRun) []*Obligation {
 					case "Lock":
 						s[k] = 'W'
 						s[alias] = 'W'
+						if fn, ok := cc.Value.(*ssa.Function); !ok || fn.Pkg == nil || fn.Pkg.Pkg.Path() != "sync" {
+							s["nosync:"+k] = 'W' // a lock type of the repository (e.g. a context-aware mutex whose Lock may fail): not subject to the balance rule
+						}
 					case "RLock":
 						if s[k] != 'W' {
 							s[k] = 'R'
@@ -267,6 +280,25 @@ func locksetObligations(w *World, pkg string, run *checkRun) []*Obligation {
 		}
 		// obligations
 		n := 0
+		nret := 0
+		locksSomething := false
+		for _, b := range f.Blocks {
+			for _, ins := range b.Instrs {
+				if c, ok := ins.(*ssa.Call); ok {
+					if fn, ok := c.Common().Value.(*ssa.Function); ok && fn.Signature.Recv() != nil && (fn.Name() == "Lock" || fn.Name() == "RLock") && fn.Pkg != nil && fn.Pkg.Pkg.Path() == "sync" {
+						locksSomething = true
+					}
+				}
+			}
+		}
+		returnsHolding := false
+		if ct := cf.Funcs[fname]; ct != nil {
+			for _, nt := range ct.Notes {
+				if strings.Contains(nt, "returns holding") {
+					returnsHolding = true
+				}
+			}
+		}
 		taint := map[ssa.Value][3]string{} // map/slice value loaded from a guarded field -> (lock key, struct.field, mode)
 		for _, b := range f.Blocks {
 			s, ok := in[b]
@@ -291,6 +323,35 @@ func locksetObligations(w *World, pkg string, run *checkRun) []*Obligation {
 					out = append(out, o)
 				}
 				switch x := ins.(type) {
+				case *ssa.Return:
+					// balance: a mutex this function took (it is not in the entry set) and that is certainly held here is
+					// released by a deferred Unlock - otherwise this return leaves it locked for good
+					if !locksSomething {
+						return
+					}
+					nret++
+					var leaked []string
+					for k := range cur {
+						if strings.HasPrefix(k, "<") || strings.HasPrefix(k, "defer:") || strings.HasPrefix(k, "nosync:") {
+							continue
+						}
+						if _, other := cur["nosync:"+k]; other {
+							continue
+						}
+						if _, atEntry := entry[k]; atEntry {
+							continue
+						}
+						if _, deferred := cur["defer:"+k]; !deferred {
+							leaked = append(leaked, k)
+						}
+					}
+					sort.Strings(leaked)
+					o := constObligation(fmt.Sprintf("%s.%s/lockbalance#%d", base, fname, nret), base+"."+fname, len(leaked) == 0 || returnsHolding,
+						fmt.Sprintf("every mutex taken by the function is released when it returns (still held: %v)", leaked))
+					if x.Pos().IsValid() {
+						o.Pos = w.fset.Position(x.Pos())
+					}
+					out = append(out, o)
 				case *ssa.FieldAddr:
 					sn := structNameOf(x.X.Type())
 					if sn == "" {
